@@ -7,6 +7,9 @@ Decided clauses:
          exactly one parse / instantiate / run per path of auto_cli
   C12.c  the callee's value is what is returned; the namespace passed is the
          instantiated parse result
+  C12.d  signature defaults are compared by identity/equality, never by truthiness
+  C12.e  subcommand selection addresses every configuration key through `prefix`
+         (nested components are nested subcommand levels)
 Not decided: required/default/Optional derivation in _add_signature_parameter;
 binding for all signatures and inputs.
 """
@@ -85,6 +88,18 @@ def _atoms(ctx: Ctx, fn: ast.AST, guards: List[Tuple[ast.AST, bool]]) -> Set[Tup
                     consts = ast.unparse(c.args[1]) if len(c.args) > 1 else ""
                     if "property" not in consts:
                         continue
+                if leaf == "has_parameter" and c.args:
+                    # whose signature is asked: the component itself or a method looked up on it
+                    first = fn.args.args[0].arg if fn.args.args else None
+                    subj = c.args[0]
+                    sv = resolve(subj)
+                    if isinstance(subj, ast.Name) and subj.id == first:
+                        role = "component"
+                    elif isinstance(sv, ast.Call) and call_leaf(sv) == "getattr" and sv.args and isinstance(sv.args[0], ast.Name) and sv.args[0].id == first:
+                        role = "method of the component"
+                    else:
+                        role = ast.unparse(subj)
+                    consts = f"{consts} of the {role}"
                 if leaf == "getmembers":
                     leaf = "get_class_methods"
                 out.add((leaf, consts, pol))
@@ -260,6 +275,47 @@ def run(ctx: Ctx) -> int:
                 ok = all(isinstance(o, (ast.Is, ast.IsNot, ast.Eq, ast.NotEq)) for o in pt.ops)
                 ctx.oblige("C12.d", ok, pt, "the signature default is compared by identity / equality" if ok else "unexpected comparison of the signature default", fn=asp)
     ctx.floor("C12.d-default-tests", n_def, 2)
+
+    # ---------------- C12.e ---------------------------------------------------
+    # nested components (class inside a dict of components, functions in nested dicts) are nested subcommand
+    # levels: the two functions that select a subcommand address the configuration of level n through
+    # `prefix`; a key used without it names a different (top-level) entry
+    n_pref = 0
+    for ref in ("_actions:_ActionSubCommands.get_subcommands", "_actions:_ActionSubCommands.handle_subcommands"):
+        fn = ctx.func(ref)
+        params = [a.arg for a in fn.args.args]
+        ctx.need("prefix" in params and "cfg" in params, f"{ref}(.., cfg, .., prefix, ..)")
+
+        def prefixed(e: ast.AST, depth: int = 0) -> bool:
+            if isinstance(e, ast.BinOp) and isinstance(e.op, ast.Add):
+                return (isinstance(e.left, ast.Name) and e.left.id == "prefix") or prefixed(e.left, depth)
+            if isinstance(e, ast.JoinedStr):
+                return bool(e.values) and isinstance(e.values[0], ast.FormattedValue) and isinstance(e.values[0].value, ast.Name) and e.values[0].value.id == "prefix"
+            if isinstance(e, ast.Name) and depth < 3:
+                defs = [s for s in walk_local(fn) if isinstance(s, ast.Assign) and any(isinstance(t, ast.Name) and t.id == e.id for t in s.targets)]
+                others = [n for n in walk_local(fn) if isinstance(n, (ast.For, ast.comprehension)) and any(isinstance(x, ast.Name) and x.id == e.id for x in ast.walk(n.target))]
+                return bool(defs) and not others and all(prefixed(s.value, depth + 1) for s in defs)
+            return False
+
+        uses: List[Tuple[ast.AST, ast.AST]] = []
+        for n in walk_local(fn):
+            if isinstance(n, ast.Subscript) and isinstance(n.value, ast.Name) and n.value.id == "cfg":
+                uses.append((n, n.slice))
+            elif isinstance(n, ast.Call) and isinstance(n.func, ast.Attribute) and isinstance(n.func.value, ast.Name) and n.func.value.id == "cfg" and n.func.attr in ("get", "pop", "__contains__", "__delitem__", "__getitem__", "__setitem__", "update") and n.args:
+                uses.append((n, n.args[0] if n.func.attr != "update" or len(n.args) < 2 else n.args[1]))
+            elif isinstance(n, ast.Compare) and len(n.ops) == 1 and isinstance(n.ops[0], (ast.In, ast.NotIn)) and isinstance(n.comparators[0], ast.Name) and n.comparators[0].id == "cfg":
+                uses.append((n, n.left))
+        for node, key in uses:
+            n_pref += 1
+            ok = prefixed(key)
+            ctx.oblige(
+                "C12.e",
+                ok,
+                node,
+                f"`{ast.unparse(key)}` addresses the current subcommand level (derived from `prefix`)" if ok else f"`{ast.unparse(node)}` addresses the configuration without `prefix`: below the first subcommand level it names a different entry (KeyError, or the wrong component's settings are kept/removed)",
+                fn=fn,
+            )
+    ctx.floor("C12.e-prefixed-keys", n_pref, 8)
 
     ctx.trusted_base += ["argparse raises on conflicting option strings, so an unconditional --config option fails loudly if the component has a `config` parameter"]
     return ctx.finish(
